@@ -36,7 +36,8 @@ from ural.youtube import is_youtube_url, normalize_youtube_url
 
 IRRELEVANT_QUERY_PATTERN = r"^(?:__twitter_impression|_guc_consent_skip|guccounter|fb_action_types|(?:php|asp|j)?sessionid|fb_action_ids|fb_source|echobox|feature|recruiter|_unique_id|twclid|mibextid|campaignid|adgroupid|cn-reloaded|ao_noptimize|mkt_tok|fbclid|igshid|refid|gclid|mc_cid|mc_eid|__tn__|_ft_|dclid|wpamp|fref|usqp|ncid|mtm_.+|utm_.+%s|s?een|cftoken|cfid|sid|xt(?:loc|ref|cr|np|or|s)|at_.+|_ga)$"
 
-IRRELEVANT_SUBDOMAIN_PATTERN = r"\b(?:www\d?|mobile%s|m)\."
+# NOTE: only whole labels are irrelevant ("forum-m.example.com" is not "m.example.com")
+IRRELEVANT_SUBDOMAIN_PATTERN = r"(?:^|(?<=\.))(?:www\d?|mobile%s|m)\."
 
 AMP_QUERY_PATTERN = r"|amp_.+|amp"
 AMP_QUERY_COMBOS = {"outputtype": ("amp",)}
